@@ -311,7 +311,17 @@ pub fn run(line: &str) -> Obs {
 // ---------------------------------------------------------------- generators
 
 fn pow2(e: i64) -> f64 {
-    2f64.powi(e as i32)
+    // exact for every exponent: `powi` computes the positive power first, so it gives 0 below 2^-1023
+    let e = e as i32;
+    if e > 1023 {
+        f64::INFINITY
+    } else if e >= -1022 {
+        f64::from_bits(((e + 1023) as u64) << 52)
+    } else if e >= -1074 {
+        f64::from_bits(1u64 << (e + 1074))
+    } else {
+        0.0
+    }
 }
 
 struct Gen<'a> {
